@@ -26,8 +26,14 @@ func parseRegex(pat string) ([]reItem, error) {
 	} else {
 		subs = []*syntax.Regexp{re}
 	}
-	if len(subs) < 2 || subs[0].Op != syntax.OpBeginText || subs[len(subs)-1].Op != syntax.OpEndText {
-		return nil, fmt.Errorf("pattern %q is not ^...$ anchored", pat)
+	if len(subs) < 2 || subs[0].Op != syntax.OpBeginText {
+		return nil, fmt.Errorf("pattern %q is not ^ anchored", pat)
+	}
+	// without the end anchor the pattern matches when a prefix of the string matches: the last
+	// repetition needs only its minimal count and is followed by "anything" (handled below)
+	openEnd := subs[len(subs)-1].Op != syntax.OpEndText
+	if openEnd {
+		subs = append(append([]*syntax.Regexp{}, subs...), &syntax.Regexp{Op: syntax.OpEndText})
 	}
 	var items []reItem
 	mkClass := func(r *syntax.Regexp, min, max int) (reItem, error) {
@@ -106,6 +112,21 @@ func parseRegex(pat string) ([]reItem, error) {
 		default:
 			return nil, fmt.Errorf("unsupported regex operator %v in %q", s.Op, pat)
 		}
+	}
+	if openEnd {
+		if n := len(items); n > 0 && items[n-1].lit == nil && items[n-1].min != items[n-1].max {
+			last := items[n-1]
+			if last.min == 0 {
+				items = items[:n-1]
+			} else {
+				if !last.highNone {
+					return nil, fmt.Errorf("open-ended pattern whose last class contains non-ASCII runes")
+				}
+				last.max = last.min
+				items[n-1] = last
+			}
+		}
+		items = append(items, reItem{class: []rune{0, 0x10FFFF}, min: 0, max: -1, highAll: true})
 	}
 	return items, nil
 }
